@@ -2,6 +2,7 @@ package props
 
 import (
 	"fmt"
+	"math"
 	"time"
 
 	"verif/mc"
@@ -228,6 +229,11 @@ func storeSpecs(prop string, under []Kind, tier string, depthQuick, depthThoroug
 		for _, b := range partnersFor(a, tier) {
 			o := alphabetOpts{idxA: idxFor(a), idxB: idxPartner(a, b), weights: []float64{0.5, 2}, wIdx: 3,
 				reweights: []float64{0.5, 2}, codec: true, proto: true, reads: true, copies: true, clearB: true}
+			if a.K == 'S' && b.K == 'S' {
+				// neither side needs an array or a page table: indexes at both ends of the int32 range
+				o.idxA = append(o.idxA, math.MaxInt32-100, math.MinInt32+100)
+				o.idxB = append(o.idxB, 1<<30)
+			}
 			sp := &StoreScenarioSpec{Name: fmt.Sprintf("%s/stores/%s+%s", prop, a, b), Property: prop,
 				Kinds: []Kind{a, b}, Seeds: seedsFor(a, tier), Depth: depthQuick}
 			if tier == "thorough" {
